@@ -19,6 +19,7 @@ import (
 	"massnet.org/mass-wallet/errors"
 	"massnet.org/mass-wallet/masswallet"
 	"massnet.org/mass-wallet/masswallet/keystore"
+	"massnet.org/mass-wallet/masswallet/utils"
 )
 
 const (
@@ -196,7 +197,7 @@ func checkFormatAmount(amt massutil.Amount) (string, error) {
 }
 
 func checkWitnessAddress(address string, expectStaking bool, net *config.Params) (massutil.Address, error) {
-	addr, err := massutil.DecodeAddress(address, net)
+	addr, err := utils.DecodeAddress(address, net)
 	if err != nil {
 		logging.CPrint(logging.ERROR, "failed to decode address", logging.LogFormat{
 			"address": addr,
@@ -216,7 +217,7 @@ func checkWitnessAddress(address string, expectStaking bool, net *config.Params)
 }
 
 func parseBindingTarget(address string, net *config.Params) (massutil.Address, error) {
-	target, err := massutil.DecodeAddress(address, net)
+	target, err := utils.DecodeAddress(address, net)
 	if err != nil {
 		logging.CPrint(logging.ERROR, "failed to decode binding target", logging.LogFormat{
 			"address": address,
